@@ -75,15 +75,59 @@ def aliasing_probe():
     return bad
 
 
+def index_probe():
+    """A test, not part of the model (whose indices are integers): whatever Python accepts as a sequence index is recorded
+    as an integer position inside 0..n-1 (`t[True]` is position 1), anything else is rejected."""
+    import json
+    from nada_dsl import Party, Input, Output, SecretInteger, NTuple
+    from nada_dsl.compiler_frontend import nada_dsl_to_nada_mir
+    from ..real.env import reset_globals
+    reset_globals()
+    p = Party("P")
+    a, b = SecretInteger(Input("a", p)), SecretInteger(Input("b", p))
+    t = NTuple.new([a, b])
+    bad = []
+
+    class Idx:
+        def __index__(self):
+            return 1
+    for text, idx in (("True", True), ("False", False), ("an object with __index__ -> 1", Idx())):
+        try:
+            got = t[idx]
+        except Exception:  # pylint: disable=broad-except
+            continue                     # rejecting it is fine
+        mir = json.loads(json.dumps(nada_dsl_to_nada_mir([Output(got, "o", p)])))
+        for op in mir["operations"].values():
+            for name, body in op.items():
+                if name == "NTupleAccessor" and not (type(body.get("index")) is int and 0 <= body["index"] < 2):
+                    bad.append(f"t[{text}] on a 2-tuple was accepted and recorded index {body.get('index')!r}, which is not a position 0..1")
+    for text, idx in (("1.0", 1.0), ("'0'", "0"), ("None", None)):
+        try:
+            t[idx]
+            bad.append(f"t[{text}] was accepted")
+        except Exception:  # pylint: disable=broad-except
+            pass
+    reset_globals()
+    return bad
+
+
 def run(res, tier):
     for text in aliasing_probe():
         res.violation({"property": "C12", "kind": "aliasing", "text": text}, "aliasing: " + text)
+    for text in index_probe():
+        res.violation({"property": "C12", "kind": "index-kind", "text": text}, "index: " + text)
     gc.run_graph(res, tier, "C12", oracle, project, classify)
 
 
 def replay(obj):
     if obj.get("kind") == "aliasing":
         bad = aliasing_probe()
+        print(bad or "ok")
+        if bad:
+            print("VIOLATION property=C12 replay=(replayed)")
+        return 1 if bad else 0
+    if obj.get("kind") == "index-kind":
+        bad = index_probe()
         print(bad or "ok")
         if bad:
             print("VIOLATION property=C12 replay=(replayed)")
